@@ -1251,9 +1251,6 @@ def cumreduction(
 
     name = f"{func.__name__}-{tokenize(func, axis, binop, ident, x, dtype)}"
     n = x.numblocks[axis]
-    full = slice(None, None, None)
-    slc = (full,) * axis + (slice(-1, None),) + (full,) * (x.ndim - axis - 1)
-
     indices = list(
         product(*[range(nb) if i != axis else [0] for i, nb in enumerate(x.numblocks)])
     )
@@ -1278,15 +1275,27 @@ def cumreduction(
         for old, ind in zip(last_indices, indices):
             this_slice = (name, "extra") + ind
             dsk[this_slice] = (
+                _cumreduction_carry,
                 binop,
                 (name, "extra") + old,
-                (operator.getitem, (m.name,) + old, slc),
+                (m.name,) + old,
+                axis,
             )
             dsk[(name,) + ind] = (binop, this_slice, (m.name,) + ind)
 
     graph = HighLevelGraph.from_collections(name, dsk, dependencies=[m])
     result = Array(graph, name, x.chunks, m.dtype, meta=x._meta)
     return handle_out(out, result)
+
+
+def _cumreduction_carry(binop, carry, block, axis):
+    """Running total after ``block``: the total so far combined with the last
+    element of the (already scanned) block along ``axis``.  An empty block has
+    no last element and leaves the total unchanged."""
+    if block.shape[axis] == 0:
+        return carry
+    last = (slice(None),) * axis + (slice(-1, None),)
+    return binop(carry, block[last])
 
 
 def _cumsum_merge(a, b):
